@@ -5,12 +5,17 @@ exact solutions used as oracle.  Nothing here calls chempy.
 System description (shared by the 'net' and 'bimol' sub-checks)
     {"species": [{"key": "C2H4*", "comp": {"1": 4, "6": 2}}, ...],    # comp: Z -> count, "0" -> signed charge
      "subst": {"mode": "none" | "list" | "str" | "explicit", "order": [permutation of species indices]},
-     "rxns":  [{"reac": [[i, n], ...], "prod": [[j, n], ...], "k": float, "style": 0|1|2, "swap": bool}, ...],
+     "rxns":  [{"reac": [[i, n], ...], "prod": [[j, n], ...], "k": float, "style": 0|1|2, "swap": bool,
+                "inact": [[j, n], ...]            # optional: inactive (zeroth-order) co-reactants, written "(n Y)"
+                }, ...],
      "comment": bool,
-     "c0": [float >= 0 per species], "t0": float, "times": [increasing floats > t0]}
+     "c0": [float >= 0 per species], "t0": float, "times": [increasing floats > t0],
+     "c0_euler": [float >= 0 per species]       # optional second state at which only the Euler-step clause is judged
+     }
 
 Reference semantics (law of mass action, computed with Fractions from the description only):
-    rate_j = k_j * prod_i c_i**reac_ij ;  dc_i/dt = sum_j (prod_ij - reac_ij) * rate_j
+    rate_j = k_j * prod_i c_i**reac_ij ;  dc_i/dt = sum_j (prod_ij - reac_ij - inact_ij) * rate_j
+(an inactive co-reactant is consumed but does not enter the rate; a species may occur on both sides of a reaction).
 """
 from fractions import Fraction
 import math
@@ -60,6 +65,21 @@ def _side(pairs, keys, style):
     return " + ".join(out)
 
 
+def _inact_side(pairs, keys, style):
+    """Inactive co-reactants: every group in its own pair of parentheses, '(Y)', '(2 Y)', '(2 * Y)' or '(Y) + (Y)'."""
+    out = []
+    for i, n in pairs:
+        if n == 1:
+            out.append("(%s)" % keys[i])
+        elif style == 0:
+            out.append("(%d %s)" % (n, keys[i]))
+        elif style == 1:
+            out.append("(%d * %s)" % (n, keys[i]))
+        else:
+            out.extend(["(%s)" % keys[i]] * n)
+    return out
+
+
 def _kstr(k):
     """Rate constant as written in the text: integral values below 10**6 as int literal, else repr(float)
     (both are read back exactly by Python's eval)."""
@@ -75,8 +95,11 @@ def system_text(sysd):
     for r in sysd["rxns"]:
         reac = list(reversed(r["reac"])) if r.get("swap") else r["reac"]
         prod = list(reversed(r["prod"])) if r.get("swap") else r["prod"]
-        lines.append("%s -> %s; %s" % (_side(reac, keys, r.get("style", 0)), _side(prod, keys, r.get("style", 0)),
-                                      _kstr(r["k"])))
+        lhs = _side(reac, keys, r.get("style", 0))
+        groups = _inact_side(r.get("inact", []), keys, r.get("style", 0))
+        if groups:      # after the active reactants, or (swap) before them
+            lhs = " + ".join((list(reversed(groups)) + [lhs]) if r.get("swap") else ([lhs] + groups))
+        lines.append("%s -> %s; %s" % (lhs, _side(prod, keys, r.get("style", 0)), _kstr(r["k"])))
     return "\n".join(lines)
 
 
@@ -98,14 +121,15 @@ def validate(sysd):
     seen = set()
     for r in sysd["rxns"]:
         tot = {}
-        for sign, side in ((-1, r["reac"]), (1, r["prod"])):
+        for sign, side in ((-1, r["reac"]), (-1, r.get("inact", [])), (1, r["prod"])):
             for i, m in side:
                 assert 0 <= i < n and m >= 1
                 used.add(i)
                 for z, c in cs[i].items():
                     tot[z] = tot.get(z, 0) + sign * m * c
         assert all(v == 0 for v in tot.values()), "unbalanced reaction in description"
-        sig = (tuple(sorted(map(tuple, r["reac"]))), tuple(sorted(map(tuple, r["prod"]))))
+        sig = (tuple(sorted(map(tuple, r["reac"]))), tuple(sorted(map(tuple, r["prod"]))),
+               tuple(sorted(map(tuple, r.get("inact", [])))))
         assert sig not in seen, "duplicate reaction"
         seen.add(sig)
         assert r["k"] > 0
@@ -114,6 +138,8 @@ def validate(sysd):
     ts = [sysd["t0"]] + list(sysd["times"])
     assert all(b > a for a, b in zip(ts, ts[1:])), "times not increasing"
     assert sorted(sysd["subst"]["order"]) == list(range(n))
+    if sysd.get("c0_euler") is not None:
+        assert len(sysd["c0_euler"]) == n and all(c >= 0 for c in sysd["c0_euler"])
 
 
 def rates_exact(sysd, c):
@@ -127,6 +153,8 @@ def rates_exact(sysd, c):
             rate *= c[i] ** m
         net = {}
         for i, m in r["reac"]:
+            net[i] = net.get(i, 0) - m
+        for i, m in r.get("inact", []):
             net[i] = net.get(i, 0) - m
         for i, m in r["prod"]:
             net[i] = net.get(i, 0) + m
@@ -165,7 +193,10 @@ def scale(sysd, c):
 # exact solution of linear networks: fixed-point integer scaling-and-squaring exp(A) with explicit error budget
 # ---------------------------------------------------------------------------------------------------------
 
-def linear_matrix(sysd):
+def linear_matrix(sysd, no_production_into=()):
+    """dc/dt = M c of a first-order network.  An inactive co-reactant Y of a step with active reactant X contributes
+    M[Y][X] -= n k (consumed at the rate of the step, which does not depend on [Y]).  `no_production_into`: species
+    whose *formation* terms are left out (consumption-only variant used to size the supply of a reagent)."""
     n = len(sysd["species"])
     M = [[Fraction(0)] * n for _ in range(n)]
     for r in sysd["rxns"]:
@@ -173,9 +204,21 @@ def linear_matrix(sysd):
         i = r["reac"][0][0]
         k = Fraction(r["k"])
         M[i][i] -= k
+        for j, m in r.get("inact", []):
+            M[j][i] -= m * k
         for j, m in r["prod"]:
-            M[j][i] += m * k
+            if j not in no_production_into:
+                M[j][i] += m * k
     return M
+
+
+def foreign_reagents(sysd):
+    """Species that are an inactive co-reactant of a step whose active reactant is another species."""
+    out = set()
+    for r in sysd["rxns"]:
+        act = set(i for i, _ in r["reac"])
+        out.update(j for j, _ in r.get("inact", []) if j not in act)
+    return sorted(out)
 
 
 def _matmul(A, B, n):
@@ -253,36 +296,98 @@ def riccati_extent(alpha, beta, gamma, ts):
         return out
 
 
-def bimol_solution(sysd):
-    """Closed-form concentrations of  A + B -> C  /  2 A -> C  (optionally with the reverse reaction C -> ...).
-
-    The roles are read from the description: reaction 0 is the forward step, an optional reaction 1 its reverse."""
+def bimol_kind(sysd):
+    """'assoc' (A + B -> C), 'dimer' (2 A -> C), 'auto' (A + B -> 2 B: the product is one of the two reactants) or
+    'cat' (A + C -> B + C: one reactant is returned unchanged), read from reaction 0 of the description."""
     fw = sysd["rxns"][0]
-    kf = Fraction(fw["k"])
+    reac = dict(map(tuple, fw["reac"]))
+    prod = dict(map(tuple, fw["prod"]))
+    if len(reac) == 1:
+        return "dimer"
+    common = sorted(set(reac) & set(prod))
+    if not common:
+        return "assoc"
+    if len(prod) == 1:
+        return "auto"
+    return "cat"
+
+
+def _check_reverse(sysd):
+    fw = sysd["rxns"][0]
     kb = Fraction(0)
+    assert len(sysd["rxns"]) <= 2
     if len(sysd["rxns"]) == 2:
         bw = sysd["rxns"][1]
         assert sorted(map(tuple, bw["reac"])) == sorted(map(tuple, fw["prod"]))
         assert sorted(map(tuple, bw["prod"])) == sorted(map(tuple, fw["reac"]))
         kb = Fraction(bw["k"])
-    assert len(sysd["rxns"]) <= 2 and len(fw["prod"]) == 1 and fw["prod"][0][1] == 1
-    c0 = [Fraction(x) for x in sysd["c0"]]
-    ic = fw["prod"][0][0]
-    p0 = c0[ic]
-    ts = [Fraction(t) - Fraction(sysd["t0"]) for t in sysd["times"]]
-    if len(fw["reac"]) == 2:
-        (ia, na), (ib, nb) = fw["reac"]
-        assert na == 1 and nb == 1 and ia != ib
-        a0, b0 = c0[ia], c0[ib]
-        xs = riccati_extent(kf, -kf * (a0 + b0) - kb, kf * a0 * b0 - kb * p0, ts)
-        cols = {ia: (a0, -1), ib: (b0, -1), ic: (p0, 1)}
-    else:
-        ((ia, na),) = fw["reac"]
-        assert na == 2
-        a0 = c0[ia]
-        xs = riccati_extent(4 * kf, -4 * kf * a0 - kb, kf * a0 * a0 - kb * p0, ts)
-        cols = {ia: (a0, -2), ic: (p0, 1)}
+    assert not any(r.get("inact") for r in sysd["rxns"])
+    return Fraction(fw["k"]), kb
+
+
+def bimol_solution(sysd):
+    """Closed-form concentrations of one bimolecular step, optionally with its reverse reaction:
+
+        A + B -> C,  2 A -> C        x' = kf (a0 - x)(b0 - x) - kb (p0 + x)   resp.  kf (a0 - 2x)^2 - kb (p0 + x)
+        A + B -> 2 B  (autocatalytic, reverse 2 B -> A + B; logistic growth)
+                                     x' = kf (a0 - x)(b0 + x) - kb (b0 + x)^2        (a = a0 - x, b = b0 + x)
+        A + C -> B + C  (catalysed, reverse B + C -> A + C; [C] constant)
+                                     a(t) = a_inf + (a0 - a_inf) exp(-(kf + kb) c0 t),  a_inf = kb (a0 + b0)/(kf + kb)
+
+    The roles are read from the description: reaction 0 is the forward step, an optional reaction 1 its reverse."""
     import mpmath
+    fw = sysd["rxns"][0]
+    kf, kb = _check_reverse(sysd)
+    kind = bimol_kind(sysd)
+    c0 = [Fraction(x) for x in sysd["c0"]]
+    ts = [Fraction(t) - Fraction(sysd["t0"]) for t in sysd["times"]]
+
+    def mpf(q):
+        return mpmath.mpf(q.numerator) / mpmath.mpf(q.denominator)
+
+    if kind == "cat":
+        assert len(fw["reac"]) == 2 and len(fw["prod"]) == 2 and all(m == 1 for _, m in fw["reac"] + fw["prod"])
+        (ic,) = set(i for i, _ in fw["reac"]) & set(i for i, _ in fw["prod"])
+        (ia,) = [i for i, _ in fw["reac"] if i != ic]
+        (ib,) = [i for i, _ in fw["prod"] if i != ic]
+        assert len({ia, ib, ic}) == 3
+        a0, b0, cc = c0[ia], c0[ib], c0[ic]
+        a_inf = kb * (a0 + b0) / (kf + kb)
+        out = []
+        with mpmath.workdps(60):
+            for t in ts:
+                a = mpf(a_inf) + mpf(a0 - a_inf) * mpmath.exp(-mpf((kf + kb) * cc * t))
+                row = [None] * len(c0)
+                row[ia], row[ib], row[ic] = float(a), float(mpf(a0 + b0) - a), float(cc)
+                out.append(row)
+        return out
+
+    if kind == "auto":
+        assert len(fw["reac"]) == 2 and all(m == 1 for _, m in fw["reac"]) and len(c0) == 2
+        ((iw, mw),) = fw["prod"]
+        assert mw == 2
+        (io,) = [i for i, _ in fw["reac"] if i != iw]
+        o0, w0 = c0[io], c0[iw]
+        # x' = alpha x^2 + beta x + gamma with alpha = -(kf + kb) < 0: u = -x solves u' = -alpha u^2 + beta u - gamma
+        alpha, beta, gamma = -(kf + kb), kf * (o0 - w0) - 2 * kb * w0, kf * o0 * w0 - kb * w0 * w0
+        xs = riccati_extent(-alpha, beta, -gamma, ts)      # u = -x: the other isomer is o0 + u, the autocatalyst w0 - u
+        cols = {io: (o0, 1), iw: (w0, -1)}
+    else:
+        assert len(fw["prod"]) == 1 and fw["prod"][0][1] == 1
+        ic = fw["prod"][0][0]
+        p0 = c0[ic]
+        if kind == "assoc":
+            (ia, na), (ib, nb) = fw["reac"]
+            assert na == 1 and nb == 1 and ia != ib
+            a0, b0 = c0[ia], c0[ib]
+            xs = riccati_extent(kf, -kf * (a0 + b0) - kb, kf * a0 * b0 - kb * p0, ts)
+            cols = {ia: (a0, -1), ib: (b0, -1), ic: (p0, 1)}
+        else:
+            ((ia, na),) = fw["reac"]
+            assert na == 2
+            a0 = c0[ia]
+            xs = riccati_extent(4 * kf, -4 * kf * a0 - kb, kf * a0 * a0 - kb * p0, ts)
+            cols = {ia: (a0, -2), ic: (p0, 1)}
     out = []
     with mpmath.workdps(60):
         for x in xs:
@@ -314,6 +419,9 @@ def structure(sysd):
             stoich2 = True
     if any(d >= 2 for d in out_deg.values()):
         branch = True
+    both_sides = any(set(i for i, _ in r["reac"] + r.get("inact", [])) & set(j for j, _ in r["prod"])
+                     for r in sysd["rxns"])
+    self_inact = any(set(i for i, _ in r["reac"]) & set(j for j, _ in r.get("inact", [])) for r in sysd["rxns"])
     # cycle: DFS colouring
     colour = [0] * n
     cyc = [False]
@@ -351,7 +459,9 @@ def structure(sysd):
             distinct_bounds = True
     return {"branch": branch, "cycle": cyc[0], "stoich2": stoich2, "decades": dec, "chain": best[0],
             "charged": any(0 in c for c in cs), "distinct_bounds": distinct_bounds,
-            "zeros": sum(1 for x in sysd["c0"] if x == 0), "n": n, "nr": len(sysd["rxns"])}
+            "zeros": sum(1 for x in sysd["c0"] if x == 0), "n": n, "nr": len(sysd["rxns"]),
+            "both_sides": both_sides, "self_inact": self_inact, "reagents": len(foreign_reagents(sysd)),
+            "inact_rxns": sum(1 for r in sysd["rxns"] if r.get("inact"))}
 
 
 # ---------------------------------------------------------------------------------------------------------
@@ -387,11 +497,33 @@ def _assign_keys(species_comps, explicit):
     return keys
 
 
+def _float_at_least(q):
+    """Smallest-effort float >= the Fraction q."""
+    f = float(q)
+    while Fraction(f) < q:
+        f = math.nextafter(f, math.inf)
+    return f
+
+
 @st.composite
-def networks(draw, max_species=7, max_rxns=8, decades=8):
+def networks(draw, max_species=7, max_rxns=8, decades=8, inact=False):
     """First-order networks balanced by construction: a species is a base fragment, an isomer of an earlier
     species, or the sum of a multiset of earlier species; a reaction X -> products is obtained from [X] by
-    rewriting entries into an isomer or into their defining multiset."""
+    rewriting entries into an isomer or into their defining multiset.
+
+    inact=True widens the left-hand side: [root] is rewritten as well (0-2 steps) into a multiset L, one entry of L is
+    the active reactant X and the others are written as inactive co-reactants '(n Y)' (consumed, zeroth order), the
+    right-hand side is another rewriting of [root] - hence balanced, and still linear: d[Y]/dt = -n k [X].  Y = X
+    ('X + (X) -> ...', X consumed twice per event at a first-order rate) is allowed; a Y different from the active
+    reactant (a *reagent*) is never an active reactant anywhere, so that nothing depends on [Y] and the rest of the
+    network keeps non-negative solutions.  The initial amount of every reagent is its exact total consumption up to
+    the last output time (its formation by other steps not counted) times a drawn factor >= 1, plus a drawn extra
+    amount: the exact solution is non-negative throughout.  Output times of such a network end at 10/k of its
+    fastest reagent-consuming step (a persistent X would otherwise turn over k*t >> 1 equivalents of reagent, whose
+    supply would then dwarf every other concentration) and, where the reagent lets the other species multiply
+    ('X + (Y) -> 2 X'), at 3/lambda of that growth.  "c0_euler" is a second state with *scarce* reagents
+    (theta * consumption rate * a lower estimate of the step allowed by the other species, theta mostly < 1) at which
+    only the explicit-Euler-step clause is judged."""
     n_base = draw(st.integers(1, 3))
     cs = []          # composition dicts (int keys)
     defn = []        # None | list of indices (multiset) the species is the sum of
@@ -439,10 +571,22 @@ def networks(draw, max_species=7, max_rxns=8, decades=8):
 
     rxns = []
     seen = set()
+    reagents = set()       # species used as inactive co-reactant of another species' step: never an active reactant
+    active = set()         # species used as active reactant
     n_rx = draw(st.integers(1, max_rxns))
     cands = [i for i in range(n) if options(i)]     # never empty: the last species has a source, isomers are mutual
     for _ in range(n_rx):
         i = cands[draw(st.integers(0, len(cands) - 1))]
+        lhs = [i]
+        if inact and draw(st.integers(0, 2)) != 0:
+            for _s in range(draw(st.integers(1, 2))):
+                pos = draw(st.integers(0, len(lhs) - 1))
+                o = options(lhs[pos])
+                if o:
+                    new = o[draw(st.integers(0, len(o) - 1))]
+                    if len(lhs) - 1 + len(new) <= 4:
+                        lhs[pos:pos + 1] = new
+            lhs.sort()
         ms = [i]
         for _s in range(draw(st.integers(1, 3))):
             pos = draw(st.integers(0, len(ms) - 1))
@@ -450,19 +594,37 @@ def networks(draw, max_species=7, max_rxns=8, decades=8):
             if o and len(ms) < 6:
                 ms[pos:pos + 1] = o[draw(st.integers(0, len(o) - 1))]
         ms.sort()
-        if ms == [i]:
-            o = options(i)
-            if not o:
-                continue
-            ms = sorted(o[0])
+        if ms == lhs:
+            if lhs != [i]:
+                ms = [i]
+            else:
+                o = options(i)
+                if not o:
+                    continue
+                ms = sorted(o[0])
+        # the active reactant: one entry of lhs that is not a reagent; the other entries are inactive co-reactants
+        act_pos = [q for q, x in enumerate(lhs) if x not in reagents]
+        if not act_pos:
+            continue
+        q = act_pos[draw(st.integers(0, len(act_pos) - 1))] if len(lhs) > 1 else act_pos[0]
+        a = lhs[q]
+        rest = lhs[:q] + lhs[q + 1:]
+        foreign = set(rest) - {a}
+        if foreign & active:
+            continue
         prod = [[j, ms.count(j)] for j in sorted(set(ms))]
-        key = (i, tuple(map(tuple, prod)))
+        ina = [[j, rest.count(j)] for j in sorted(set(rest))]
+        key = (a, tuple(map(tuple, ina)), tuple(map(tuple, prod)))
         if key in seen:
             continue
         seen.add(key)
+        reagents |= foreign
+        active.add(a)
         k = _log_uniform(draw, -decades / 2.0, decades / 2.0)
-        rxns.append({"reac": [[i, 1]], "prod": prod, "k": k, "style": draw(st.integers(0, 2)),
-                     "swap": draw(st.booleans())})
+        rx = {"reac": [[a, 1]], "prod": prod, "k": k, "style": draw(st.integers(0, 2)), "swap": draw(st.booleans())}
+        if ina:
+            rx["inact"] = ina
+        rxns.append(rx)
     if not rxns:
         # the last species always has a source (isomer of / sum of earlier ones)
         i = n - 1
@@ -473,11 +635,12 @@ def networks(draw, max_species=7, max_rxns=8, decades=8):
         rxns.append({"reac": [[i, 1]], "prod": [[j, ms.count(j)] for j in sorted(set(ms))], "k": 1.0, "style": 0,
                      "swap": False})
     # prune species that occur in no reaction (chempy's builders reject them; outside the property)
-    used = sorted(set(i for r in rxns for side in (r["reac"], r["prod"]) for i, _ in side))
+    used = sorted(set(i for r in rxns for side in (r["reac"], r["prod"], r.get("inact", [])) for i, _ in side))
     remap = {old: new for new, old in enumerate(used)}
     for r in rxns:
-        r["reac"] = [[remap[i], m] for i, m in r["reac"]]
-        r["prod"] = [[remap[i], m] for i, m in r["prod"]]
+        for side in ("reac", "prod", "inact"):
+            if side in r:
+                r[side] = [[remap[i], m] for i, m in r[side]]
     cs = [cs[i] for i in used]
     n = len(cs)
     subst = _subst(draw, n)
@@ -490,6 +653,19 @@ def networks(draw, max_species=7, max_rxns=8, decades=8):
     ks = [r["k"] for r in rxns]
     lo = math.log10(0.01 / max(ks))
     hi = math.log10(10.0 / min(ks))
+    reag = sorted(remap[y] for y in reagents)
+    if reag:
+        hi = min(hi, math.log10(10.0 / max(r["k"] for r in rxns
+                                           if any(j != r["reac"][0][0] for j, _ in r.get("inact", [])))))
+        # fed by a reagent, the other species may multiply ('X + (Y) -> 2 X'): c ~ exp(lam t) with lam the dominant
+        # (Perron) eigenvalue of their block of M.  The horizon ends at lam t = 3 (growth x 20); beyond that the
+        # problem itself amplifies every solver error by exp(lam t) and the supply of reagent dwarfs everything else
+        import numpy as np
+        Mf = np.array([[float(x) for x in row] for row in linear_matrix({"species": [None] * n, "rxns": rxns})])
+        nn = [i for i in range(n) if i not in reag]
+        lam = float(max(np.linalg.eigvals(Mf[np.ix_(nn, nn)]).real))
+        if lam > 0:
+            hi = max(min(hi, math.log10(3.0 / lam)), lo + 1.0)
     nt = draw(st.integers(3, 8))
     fr = sorted(set(draw(st.lists(st.integers(0, 1000), min_size=nt, max_size=nt))))
     t0 = draw(st.sampled_from([0.0, 0.0, 0.0, 1.5, -2.0, 100.0]))
@@ -501,8 +677,35 @@ def networks(draw, max_species=7, max_rxns=8, decades=8):
     while len(times) < 3:
         base = times[-1] if times else t0
         times.append(base + (abs(base - t0) if base != t0 else float(10.0 ** lo)))
-    return {"species": [{"key": k, "comp": {str(z): c for z, c in sorted(comp.items())}} for k, comp in zip(keys, cs)],
-            "subst": subst, "rxns": rxns, "comment": draw(st.booleans()), "c0": c0, "t0": t0, "times": times}
+    out = {"species": [{"key": k, "comp": {str(z): c for z, c in sorted(comp.items())}} for k, comp in zip(keys, cs)],
+           "subst": subst, "rxns": rxns, "comment": draw(st.booleans()), "c0": c0, "t0": t0, "times": times}
+    if reag:
+        extra = [c0[y] for y in reag]
+        for y in reag:
+            c0[y] = 0.0
+        if not any(c0):
+            c0[rxns[0]["reac"][0][0]] = 1.0
+        # exact consumption of every reagent up to the last output time (nothing depends on a reagent: column = 0)
+        M = linear_matrix(out, no_production_into=set(reag))
+        dt = Fraction(times[-1]) - Fraction(t0)
+        Y, P = expm_fixed([[x * dt for x in row] for row in M])
+        scarce = list(c0)
+        # lower estimate of the Euler step allowed by the other species: 1/(largest total first-order loss constant)
+        loss = {}
+        for r in rxns:
+            a = r["reac"][0][0]
+            loss[a] = loss.get(a, 0.0) + r["k"] * (1 + sum(m for j, m in r.get("inact", []) if j == a))
+        h_ref = min(1.0, 1.0 / max(loss.values()))
+        for y, ex in zip(reag, extra):
+            need = -sum(Fraction(Y[y][l], 1 << P) * Fraction(c0[l]) for l in range(n))
+            need = max(need, Fraction(0))
+            factor = draw(st.sampled_from([Fraction(101, 100), 2, 10, 1000]))
+            c0[y] = _float_at_least(Fraction(_float_at_least(need * factor)) + Fraction(ex))
+            rate = sum(m * r["k"] * c0[r["reac"][0][0]] for r in rxns for j, m in r.get("inact", []) if j == y)
+            theta = draw(st.sampled_from([0.5, 0.1, 0.9, 0.01, 0.999, 3.0]))
+            scarce[y] = theta * rate * h_ref if rate > 0 else 1.0
+        out["c0_euler"] = scarce
+    return out
 
 
 # bimolecular triples: (A, B, C) with hand-written compositions (Z -> count, 0 -> charge); B None = "2 A -> C"
@@ -523,10 +726,29 @@ TRIPLES = [
 ]
 
 
+# pairs of isomers (A, B, shared composition) for the autocatalytic step A + B -> 2 B and the catalysed step
+# A + C -> B + C; catalysts C (hand-written compositions)
+ISOMER_PAIRS = [
+    ("HNC", "HCN", {1: 1, 6: 1, 7: 1}),
+    ("CH3NC", "CH3CN", {1: 3, 6: 2, 7: 1}),
+    ("HOCN", "HNCO", {1: 1, 6: 1, 7: 1, 8: 1}),
+    ("NH4OCN", "(NH2)2CO", {1: 4, 6: 1, 7: 2, 8: 1}),
+    ("HOC+", "HCO+", {1: 1, 6: 1, 8: 1, 0: 1}),
+    ("alpha-C6H12O6", "beta-C6H12O6", {1: 12, 6: 6, 8: 6}),
+]
+CATALYSTS = [("H+", {1: 1, 0: 1}), ("OH-", {1: 1, 8: 1, 0: -1}), ("H2O", {1: 2, 8: 1}), ("Cl-", {17: 1, 0: -1}),
+             ("I2", {53: 2}), ("Pt", {78: 1})]
+BIMOL_KINDS = ["assoc", "assoc", "auto", "cat"]      # 'assoc' covers A + B -> C and 2 A -> C (table TRIPLES)
+
+
 @st.composite
-def bimolecular(draw, decades=6):
-    tr = TRIPLES[draw(st.integers(0, len(TRIPLES) - 1))]
+def bimolecular(draw, decades=6, kinds=BIMOL_KINDS):
+    kind = kinds[draw(st.integers(0, len(kinds) - 1))]
     half = decades / 2.0
+    if kind == "assoc":
+        tr = TRIPLES[draw(st.integers(0, len(TRIPLES) - 1))]
+    else:
+        pair = ISOMER_PAIRS[draw(st.integers(0, len(ISOMER_PAIRS) - 1))]
     rev = draw(st.booleans())
     kf = _log_uniform(draw, -half, half)
     kb = _log_uniform(draw, -half, half)
@@ -534,14 +756,33 @@ def bimolecular(draw, decades=6):
     eq = draw(st.integers(0, 3)) == 0
     b0 = a0 if eq else _log_uniform(draw, -half, half)
     p0 = draw(st.one_of(st.just(0.0), st.floats(-half, half).map(lambda u: float(10.0 ** u))))
-    if tr[2] is None:
+    kb_eff = kb if rev else 0.0
+    if kind == "auto":
+        # A + B -> 2 B (flip: the first-written species is the autocatalyst, A + B -> 2 A); the autocatalyst starts at
+        # b0 > 0, the other isomer at a0 or (one case in eight, interesting with the reverse step only) at 0
+        flip = draw(st.booleans())
+        if draw(st.integers(0, 7)) == 7:
+            a0 = 0.0
+        w, o = (0, 1) if flip else (1, 0)
+        sp = [(pair[0], pair[2]), (pair[1], pair[2])]
+        reac, prod = [[0, 1], [1, 1]], [[w, 2]]
+        c0 = [0.0, 0.0]
+        c0[w], c0[o] = b0, a0
+        tau = 1.0 / ((kf + kb_eff) * (a0 + b0))
+    elif kind == "cat":
+        # A + C -> B + C; the catalyst C at b0 (the drawn second amount), the product isomer B at p0
+        cat = CATALYSTS[draw(st.integers(0, len(CATALYSTS) - 1))]
+        sp = [(pair[0], pair[2]), (pair[1], pair[2]), cat]
+        reac, prod, c0 = [[0, 1], [2, 1]], [[1, 1], [2, 1]], [a0, p0, b0]
+        tau = 1.0 / ((kf + kb_eff) * b0)
+    elif tr[2] is None:
         sp = [(tr[0], tr[1]), (tr[4], tr[5])]
         reac, prod, c0 = [[0, 2]], [[1, 1]], [a0, p0]
-        tau = 1.0 / (4 * kf * a0 + (kb if rev else 0.0))
+        tau = 1.0 / (4 * kf * a0 + kb_eff)
     else:
         sp = [(tr[0], tr[1]), (tr[2], tr[3]), (tr[4], tr[5])]
         reac, prod, c0 = [[0, 1], [1, 1]], [[2, 1]], [a0, b0, p0]
-        tau = 1.0 / (kf * max(a0, b0) + (kb if rev else 0.0))
+        tau = 1.0 / (kf * max(a0, b0) + kb_eff)
     subst = _subst(draw, len(sp))
     explicit = subst["mode"] == "explicit"
     rxns = [{"reac": reac, "prod": prod, "k": kf, "style": draw(st.integers(0, 2)), "swap": draw(st.booleans())}]
